@@ -26,24 +26,40 @@ import (
 	"github.com/lianxiangcloud/linkchain/types"
 )
 
-const knownRing1Key = "uin-ring1:pseudo-out-not-bound-to-spent-commitment"
+// Root causes that were found on the unchanged tree, reproduced by stand-alone programs (repro.go) and accepted as
+// genuine defects. Each key is produced ONLY when its precise cause is present and explains the whole deviation of a
+// block (see checkBlock): the search continues through such states ("soft"), any residue alarms under a generic key.
+const (
+	knownRing1Key   = "uin-ring1:pseudo-out-not-bound-to-spent-commitment"
+	knownCreateKey  = "create:tokens-at-prefunded-address-destroyed"
+	knownSuicideKey = "selfdestruct:credit-later-in-same-block-destroyed"
+	knownUinCallKey = "uin-to-contract-created-in-block:failed-call-value-not-returned"
+)
+
+var softKeys = map[string]bool{knownRing1Key: true, knownCreateKey: true, knownSuicideKey: true, knownUinCallKey: true}
 
 type violation struct {
 	Key  string `json:"key"`
 	What string `json:"what"`
 }
 
+func (v violation) soft() bool { return softKeys[v.Key] }
+
 type model struct {
 	w           *world
 	bal         map[common.Address]map[common.Address]*big.Int
 	issued      map[common.Address]*big.Int
 	destroyed   map[common.Address]*big.Int
-	inflated    map[common.Address]*big.Int // explained by the known ring-of-one finding
 	hiddenDelta map[common.Address]*big.Int
 	suicided    map[common.Address]bool
 	expectOuts  []expOut
 	expectSpent []*txkit.Owned
-	notes       map[string]bool
+
+	// adjust: additionally apply the semantics of the known defects (the strict model is the property; the adjusted
+	// model tells whether the known defects explain EVERYTHING that deviates)
+	adjust     bool
+	knownDelta map[common.Address]*big.Int // supply change explained by known defects
+	events     map[string]string           // known key -> what happened
 }
 
 type expOut struct {
@@ -51,9 +67,9 @@ type expOut struct {
 	declOut
 }
 
-func newModel(w *world, pre *observation) *model {
+func newModel(w *world, pre *observation, adjust bool) *model {
 	m := &model{w: w, bal: map[common.Address]map[common.Address]*big.Int{}, issued: map[common.Address]*big.Int{}, destroyed: map[common.Address]*big.Int{},
-		inflated: map[common.Address]*big.Int{}, hiddenDelta: map[common.Address]*big.Int{}, suicided: map[common.Address]bool{}, notes: map[string]bool{}}
+		hiddenDelta: map[common.Address]*big.Int{}, suicided: map[common.Address]bool{}, adjust: adjust, knownDelta: map[common.Address]*big.Int{}, events: map[string]string{}}
 	for a, ac := range pre.Accounts {
 		m.bal[a] = map[common.Address]*big.Int{}
 		for t, v := range ac.Bal {
@@ -81,9 +97,6 @@ func bump(mp map[common.Address]*big.Int, t common.Address, v *big.Int) {
 }
 
 func (m *model) credit(a, t common.Address, v *big.Int) {
-	if m.suicided[a] && v.Sign() > 0 {
-		m.notes["credit-after-selfdestruct"] = true
-	}
 	b := m.get(a, t)
 	b.Add(b, v)
 }
@@ -96,10 +109,33 @@ func (m *model) debit(a, t common.Address, v *big.Int) {
 func (m *model) issue(tok common.Address, q *big.Int) { bump(m.issued, tok, q) }
 
 // created: a contract is created at address at. What the address already holds stays there.
+// Known defect (adjusted model only): StateDB.CreateAccount carries over the coin balance only, the tokens vanish.
 func (m *model) created(at common.Address) {
+	if !m.adjust {
+		return
+	}
 	for t, v := range m.bal[at] {
 		if t != coinTok && v.Sign() > 0 {
-			m.notes["create-on-token-holder"] = true
+			bump(m.knownDelta, t, new(big.Int).Neg(v))
+			m.events[knownCreateKey] = fmt.Sprintf("a contract was created at %s, which held %s of token %s: the tokens are gone (the coin balance is carried over)", m.w.roleOf(at), v, tokClass(m.w, t))
+			m.bal[at][t] = new(big.Int)
+		}
+	}
+}
+
+// finish: end of the block. Known defect (adjusted model only): self-destructed contracts are deleted at the end of the
+// BLOCK, together with whatever later transactions of the block sent them.
+func (m *model) finish() {
+	if !m.adjust {
+		return
+	}
+	for c := range m.suicided {
+		for t, v := range m.bal[c] {
+			if v.Sign() > 0 {
+				bump(m.knownDelta, t, new(big.Int).Neg(v))
+				m.events[knownSuicideKey] = fmt.Sprintf("%s self-destructed and later in the same block received %s of %s: destroyed when the block ends", m.w.roleOf(c), v, tokClass(m.w, t))
+				m.bal[c][t] = new(big.Int)
+			}
 		}
 	}
 }
@@ -151,13 +187,20 @@ func (m *model) apply(t *txMeta, rc *types.Receipt) {
 		m.expectOuts = append(m.expectOuts, expOut{t.Token, o})
 	}
 	if !ok {
-		// only possible for a confidential payment to an address that became a contract inside this block
-		m.notes["uin-call-failed"] = true
+		// only possible for a confidential payment to an address that became a contract inside this block:
+		// a failed call moves nothing but the fee
 		fee := gasFee(rc.GasUsed)
 		if t.Token != coinTok {
 			m.debit(t.Payer, coinTok, fee)
 		}
 		m.credit(collector, coinTok, fee)
+		// Known defect (adjusted model only): value and unused fee go to tx.RefundAddr, the zero address for a pure
+		// confidential transaction
+		if m.adjust && t.Token == coinTok && t.AccOut != nil && t.AinDebit == nil {
+			lost := sub(add(t.AccAmount, t.Fee), fee)
+			m.credit(common.EmptyAddress, coinTok, lost)
+			m.events[knownUinCallKey] = fmt.Sprintf("the confidential payment %s to %s (a contract created earlier in this block) failed as a call: %s coin (value + unused fee) were credited to the zero address", t.Op, m.w.roleOf(*t.AccOut), lost)
+		}
 		return
 	}
 	if t.AinDebit != nil {
@@ -170,8 +213,10 @@ func (m *model) apply(t *txMeta, rc *types.Receipt) {
 	if t.AccOut != nil {
 		m.credit(*t.AccOut, t.Token, t.AccAmount)
 	}
-	if t.Inflation != nil && t.Ring <= 1 {
-		bump(m.inflated, t.Token, t.Inflation)
+	// Known defect (adjusted model only): with rings of one the declared input amount is not bound to the spent commitment
+	if m.adjust && t.Op.Kind == "lie" && t.Inflation != nil && t.Inflation.Sign() > 0 && t.Ring <= 1 {
+		bump(m.knownDelta, t.Token, t.Inflation)
+		m.events[knownRing1Key] = fmt.Sprintf("the spend %s declared %s more than its input holds and was executed: supply grew by that amount", t.Op, t.Inflation)
 	}
 }
 
@@ -218,7 +263,7 @@ func (m *model) compare(pre, post *observation, height uint64) []mismatch {
 	// O1
 	for _, t := range tl {
 		delta := sub(post.total(t), pre.total(t))
-		want := add(sub(val(m.issued, t), val(m.destroyed, t)), val(m.inflated, t))
+		want := add(sub(val(m.issued, t), val(m.destroyed, t)), val(m.knownDelta, t))
 		if delta.Cmp(want) != 0 {
 			out = append(out, mismatch{"supply", tokClass(w, t), dirOf(delta, want),
 				fmt.Sprintf("total supply of %s (all accounts + unspent hidden outputs) changed by %s, expected %s (issued %s, destroyed by self-destruct-to-self %s): accounts %s -> %s, hidden %s -> %s",
@@ -429,24 +474,66 @@ func (w *world) runBlock(pre *observation, ops []op, withTampers bool) *blockOut
 	if len(rcs) != len(metas) {
 		fatalf("block %d: %d receipts for %d transactions", b.Height, len(rcs), len(metas))
 	}
-	m := newModel(w, pre)
 	for i, t := range metas {
-		m.apply(t, rcs[i])
 		res.Executed++
-		if rcs[i].Status != types.ReceiptStatusSuccessful {
+		if rcs[i].Status != types.ReceiptStatusSuccessful && t.Op.Kind != "multisign" { // (a multi-sign tx always gets the zero receipt)
 			res.Failed++
 		}
 	}
-	mm := m.compare(pre, post, b.Height)
+	run := func(adjust bool) (*model, []mismatch) {
+		m := newModel(w, pre, adjust)
+		for i, t := range metas {
+			m.apply(t, rcs[i])
+		}
+		m.finish()
+		return m, m.compare(pre, post, b.Height)
+	}
+	// the property itself
+	_, mm := run(false)
 	// the replica must hold the same value distribution (it executed the block independently)
 	if rs := w.r.Supply(); fmt.Sprint(sortedSupply(rs)) != fmt.Sprint(sortedSupply(w.c.Supply())) {
-		mm = append(mm, mismatch{"replica", "-", "created", "proposer and replica disagree on the per-token account sums"})
+		viol("replica-diverges:account-sums", "proposer and replica disagree on the per-token account sums — block: "+opsString(ops))
 	}
-	for _, x := range mm {
-		viol(m.rootCause(x, res.Kinds), x.what+" — block: "+opsString(ops))
+	if len(mm) > 0 {
+		// do the known defects explain the WHOLE deviation?
+		am, amm := run(true)
+		if len(amm) == 0 && len(am.events) > 0 {
+			var ks []string
+			for k := range am.events {
+				ks = append(ks, k)
+			}
+			sort.Strings(ks)
+			for _, k := range ks {
+				viol(k, am.events[k]+" — "+mm[0].what+" — block: "+opsString(ops))
+			}
+		} else {
+			// one key per violating block: its primary mismatch (total supply first, then who holds what)
+			x := mm[0]
+			for _, y := range mm[1:] {
+				if clauseRank[y.clause] < clauseRank[x.clause] {
+					x = y
+				}
+			}
+			what := x.what
+			if len(mm) > 1 {
+				what += fmt.Sprintf(" (+%d further mismatches, e.g. %s)", len(mm)-1, other(mm, x))
+			}
+			viol(fmt.Sprintf("%s:%s:%s:%s", x.clause, x.tok, x.dir, strings.Join(res.Kinds, "+")), what+" — block: "+opsString(ops))
+		}
 	}
 	res.Key = w.stateKey(post)
 	return res
+}
+
+var clauseRank = map[string]int{"supply": 0, "account": 1, "hidden-sum": 2, "hidden-output": 3, "hidden-unowned": 4, "unattributed": 5}
+
+func other(mm []mismatch, x mismatch) string {
+	for _, y := range mm {
+		if y != x {
+			return y.what
+		}
+	}
+	return ""
 }
 
 func sortedSupply(s map[common.Address]*big.Int) []string {
@@ -471,20 +558,7 @@ func acceptKey(t *txMeta, where string) string {
 	if t.Op.Kind == "lie" && t.Ring <= 1 && t.Inflation != nil && t.Inflation.Sign() > 0 {
 		return knownRing1Key // the ONLY way to this key: ring of one AND inflated pseudo output AND accepted
 	}
-	return fmt.Sprintf("must-reject-accepted:%s:by-%s", t.Op.kindName(), where)
-}
-
-// rootCause: canonical key of a conservation mismatch.
-func (m *model) rootCause(x mismatch, kinds []string) string {
-	switch {
-	case m.notes["credit-after-selfdestruct"]:
-		return "selfdestruct:credit-later-in-same-block-destroyed"
-	case m.notes["create-on-token-holder"]:
-		return "create:tokens-at-prefunded-address-destroyed"
-	case m.notes["uin-call-failed"]:
-		return "uin-to-contract-created-in-block:failed-call-value-not-returned"
-	}
-	return fmt.Sprintf("%s:%s:%s:%s", x.clause, x.tok, x.dir, strings.Join(kinds, "+"))
+	return fmt.Sprintf("must-reject-accepted:%s", t.Op.kindName())
 }
 
 // ---- tampered variants of a valid confidential transaction ----------------------------------------------------
@@ -646,7 +720,7 @@ func (w *world) tryTampers(t *txMeta, res *blockOutcome) {
 	for _, tp := range w.tamperSet(t) {
 		res.Tampers++
 		if err := w.c.Mempool().AddTx("", txkit.CopyUTXO(tp.Tx)); err == nil {
-			res.Viol = append(res.Viol, violation{fmt.Sprintf("tamper-accepted:%s:%s:by-checktx", tp.Name, variant),
+			res.Viol = append(res.Viol, violation{fmt.Sprintf("tamper-accepted:%s:%s", tp.Name, variant),
 				fmt.Sprintf("CheckTx (Mempool.AddTx) accepts the tampered variant %q of the valid transaction %s", tp.Name, t.Op)})
 		}
 		blk, _, err := w.c.Propose(types.Txs{txkit.CopyUTXO(tp.Tx)}, false, 0, minichain.BlockOpts{})
@@ -657,7 +731,7 @@ func (w *world) tryTampers(t *txMeta, res *blockOutcome) {
 			}
 		}
 		if w.r.CheckBlock(minichain.CloneBlock(blk)) {
-			res.Viol = append(res.Viol, violation{fmt.Sprintf("tamper-accepted:%s:%s:by-block", tp.Name, variant),
+			res.Viol = append(res.Viol, violation{fmt.Sprintf("tamper-accepted:%s:%s", tp.Name, variant),
 				fmt.Sprintf("block processing on a replica (CheckBlock) accepts a block carrying the tampered variant %q of the valid transaction %s", tp.Name, t.Op)})
 		}
 	}
